@@ -180,9 +180,22 @@ def real_answers(c, origins):
         except Exception as ex:
             return f'raise:{type(ex).__name__}'
     res = ['1', '11']
-    res.append(guard(lambda: show([n.index for n in c.topological_order()])))
-    res.append(guard(lambda: show([f'{n.index}:{int(l)}' for n, l in c.topological_order_with_level()])))
-    res.append(guard(lambda: show([l.index for l in c.topological_line_order()])))
+    if (len(c.nodes) + len(c.lines)) % 5 < 2:
+        # traversals of one circuit may be IN PROGRESS AT THE SAME TIME (two iterators in lock-step, a fan-in query inside a
+        # loop over the levels): each must yield what it yields alone
+        def interleaved(make):
+            a, b, out = iter(make()), iter(c.reversed_topological_order()), []
+            for x in a:
+                out.append(x)
+                next(b, None)
+                if len(out) % 3 == 1 and len(c.nodes):
+                    for _ in c.fanin([c.nodes[len(out) % len(c.nodes)]]): break
+            return out
+    else:
+        def interleaved(make): return list(make())
+    res.append(guard(lambda: show([n.index for n in interleaved(c.topological_order)])))
+    res.append(guard(lambda: show([f'{n.index}:{int(l)}' for n, l in interleaved(c.topological_order_with_level)])))
+    res.append(guard(lambda: show([l.index for l in interleaved(c.topological_line_order)])))
     res.append(guard(lambda: show([n.index for n in c.reversed_topological_order()])))
     for o in origins:
         res.append(guard(lambda: show([n.index for n in c.fanin([c.nodes[i] for i in o])])))
@@ -197,6 +210,19 @@ def oracle_graph(c, origins):
     n = len(c.nodes)
     src = [seq[v] or not preds[v] for v in range(n)]
     snk = [seq[v] or not succs[v] for v in range(n)]
+    # --- traversals in progress at the same time yield what they yield alone
+    try:
+        alone = [x.index for x in c.topological_order()]
+        a, b, inter = iter(c.topological_order()), iter(c.reversed_topological_order()), []
+        for x in a:
+            inter.append(x.index); next(b, None)
+            if len(inter) % 3 == 1:
+                for _ in c.fanin([c.nodes[len(inter) % n]]): break
+        if inter != alone:
+            bad.append(('topo-order', 'topological_order() yields something else while another traversal of the same circuit is in progress',
+                        {'interleaved': inter}, {'alone': alone}))
+    except Exception:
+        pass
     # --- topological order
     try:
         order = [x.index for x in c.topological_order()]
